@@ -4,7 +4,7 @@
  *   OP 0 get<string>(POS)            1 get<string>(POS,false)      2 get<string>(key)        3 get<string>(key,true)
  *      4 get<bool>(key)              5 get_multi<string>(key)      6 get<int32_t>(POS)        7 get<int32_t>(key)
  *      8 get<int32_t>(POS,77)        9 get<int32_t>(key,77)       10 get<double>(POS)        11 get<double>(key,2.5)
- *     12 get_multi<int16_t>(key)    13 get<uint8_t>(key,HEX)
+ *     12 get_multi<int16_t>(key)    13 get<uint8_t>(key,HEX)     14 get_multi<double>(key)  15 get_multi<float>(key)
  * Reference (property text): a getter returns the value iff the argument is present and its text is a complete numeral
  * that fits / a complete floating literal; a malformed text => invalid_argument; an absent argument => out_of_range, or
  * the supplied default / "" / false / empty list for the getter forms that have one. Reading marks the argument used;
@@ -76,7 +76,7 @@ static int64_t pack(const uint8_t* t, int n) {
   for (int k = 0; k < n && k < 6; k++) v |= (int64_t)t[k] << (8 * (k + 1));
   return v;
 }
-#define NAMED_OP (OP == 2 || OP == 3 || OP == 4 || OP == 5 || OP == 7 || OP == 9 || OP == 11 || OP == 12 || OP == 13)
+#define NAMED_OP (OP == 2 || OP == 3 || OP == 4 || OP == 5 || OP == 7 || OP == 9 || OP == 11 || OP == 12 || OP == 13 || OP == 14 || OP == 15)
 #define MAXE 6
 
 void harness(void) {
@@ -121,7 +121,7 @@ void harness(void) {
     hit[i] = m;
     nhit += m;
   }
-  if (!(OP == 5 || OP == 12)) ASSUME(nhit <= 1); /* single-value getter on a repeated name: not specified */
+  if (!(OP == 5 || OP == 12 || OP == 14 || OP == 15)) ASSUME(nhit <= 1); /* single-value getter on a repeated name: not specified */
   struct ent T; memset(&T, 0, sizeof(T)); /* first addressed entry (copied: see NOTES.md on CBMC and &e[sym].member) */
   { int got = 0; for (int i = 0; i < ne; i++) if (hit[i] && !got) { T = e[i]; got = 1; } }
 
@@ -145,15 +145,15 @@ void harness(void) {
   } else if (OP == 5) {
     xv = nhit;
     for (int i = 0; i < ne; i++) if (hit[i]) e[i].used = 1;
-  } else if (OP == 12) {
+  } else if (OP == 12 || OP == 14 || OP == 15) {
     /* every value is parsed in order; a value is marked used after it parsed; the first malformed one throws */
     int k = 0;
     xv = nhit;
     for (int i = 0; i < ne; i++) if (hit[i] && xc == 0) {
       int c = k < MAXCALL ? k : MAXCALL - 1;
       int64_t s = (int64_t)st_value[c];
-      int ok = st_end[c] != 0 && st_end[c] == (uint64_t)e[i].tl && s >= -32768 && s <= 32767;
-      ASSERT(k < calls && same(text_seen[c], len_seen[c], e[i].text, e[i].tl) && base_seen[c] == 0, "value text converted with base auto");
+      int ok = st_end[c] != 0 && st_end[c] == (uint64_t)e[i].tl && (OP != 12 || (s >= -32768 && s <= 32767));
+      ASSERT(k < calls && same(text_seen[c], len_seen[c], e[i].text, e[i].tl) && base_seen[c] == (OP == 12 ? 0 : 99), "value text converted with base auto (integers) / strtod (floating)");
       if (ok) e[i].used = 1; else xc = -2;
       k++;
     }
